@@ -622,15 +622,15 @@ def translate(
     if exclude is not None:
         flags = no_negate_flags(flags)
         negative = translate(exclude, flags=flags | DOTMATCH | _NO_GLOBSTAR_CAPTURE, limit=limit)[0]
-        limit -= len(negative)
 
     flags = (flags | _TRANSLATE) & FLAG_MASK
     is_unix = is_unix_style(flags)
     seen = set()
 
     try:
-        current_limit = limit
-        total = 0
+        # Exclusion patterns count against the limit as well.
+        total = len(negative)
+        current_limit = max(limit - total, 1) if limit > 0 else limit
         for pattern in iter_patterns(patterns):
             pattern = util.norm_pattern(pattern, not is_unix, bool(flags & RAWCHARS))
             count = 0
@@ -709,14 +709,14 @@ def compile_pattern(
     if exclude is not None:
         flags = no_negate_flags(flags)
         negative = compile_pattern(exclude, flags=flags | DOTMATCH | _NO_GLOBSTAR_CAPTURE, limit=limit)[0]
-        limit -= len(negative)
 
     is_unix = is_unix_style(flags)
     seen = set()
 
     try:
-        current_limit = limit
-        total = 0
+        # Exclusion patterns count against the limit as well.
+        total = len(negative)
+        current_limit = max(limit - total, 1) if limit > 0 else limit
         for pattern in iter_patterns(patterns):
             pattern = util.norm_pattern(pattern, not is_unix, bool(flags & RAWCHARS))
             count = 0
